@@ -112,7 +112,11 @@ void job_month(mc::Reporter& r)
     auto cls = [&] {
         long long const s = (long long)m - 1 + eff_delta(op, k);
         std::string p     = huge_tag(k);
-        if (m < 1 || m > 12) { p += "month_not_ok+"; }
+        if (m > 13) {
+            p += "month_gt_13+"; // round 2: the whole 8-bit operand range (the result is specified even if !x.ok())
+        } else if (m < 1 || m > 12) {
+            p += "month_not_ok+";
+        }
         return p + (s < 0 ? "wraps_below" : (s > 11 ? "wraps_above" : "general"));
     };
     auto kase = [&] { return cat("month{", m, "} ", kUnitOps[op], " months{", (op >= 5 ? 1 : k), "}"); };
@@ -124,7 +128,7 @@ void job_month(mc::Reporter& r)
     for (long long kk : deltas) {
         k = kk;
         guard([&] {
-            for (m = 0; m <= 13; ++m) {
+            for (m = 0; m <= 255; ++m) {
                 for (op = 0; op < 9; ++op) {
                     if (op >= 5 && k != 0) { continue; } // inc/dec do not depend on k: once
                     c.subject = subjects[op].c_str();
@@ -158,7 +162,7 @@ void job_month(mc::Reporter& r)
             }
         }
     });
-    r.sample(cat("month 0..13 x months{", deltas.size(), " deltas incl. +-(2^31-1)} x 9 ops; 144 differences"));
+    r.sample(cat("month 0..255 x months{", deltas.size(), " deltas incl. +-(2^31-1)} x 9 ops; 144 differences"));
     r.count("evaluations", c.evals);
 }
 
@@ -173,8 +177,9 @@ void job_weekday(mc::Reporter& r)
     std::string subjects[9];
     for (int i = 0; i < 9; ++i) { subjects[i] = cat("weekday::", kUnitOps[i]); }
     auto cls = [&] {
-        long long const s = (long long)(w == 7 ? 0 : w) + eff_delta(op, k);
-        return huge_tag(k) + (s < 0 ? "wraps_below" : (s > 6 ? "wraps_above" : "general"));
+        long long const s = (long long)(w % 7) + eff_delta(op, k);
+        // round 2: encodings 8..255 (not ok(); weekday + days is specified "even if !x.ok()")
+        return huge_tag(k) + (w > 7 ? "weekday_not_ok+" : "") + (s < 0 ? "wraps_below" : (s > 6 ? "wraps_above" : "general"));
     };
     auto kase = [&] { return cat("weekday{", w, "} ", kUnitOps[op], " days{", (op >= 5 ? 1 : k), "}"); };
     // short guarded blocks (one per delta): the hang watchdog counts seconds without a new guard entry
@@ -185,14 +190,14 @@ void job_weekday(mc::Reporter& r)
     for (long long kk : deltas) {
         k = kk;
         guard([&] {
-            for (w = 0; w <= 7; ++w) {
+            for (w = 0; w <= 255; ++w) {
                 for (op = 0; op < 9; ++op) {
                     if (op >= 5 && k != 0) { continue; }
                     c.subject = subjects[op].c_str();
                     auto got  = unit_op(op, ec::weekday{w}, ec::days{int(k)}, [](auto const& x) { return f_wd(x); });
                     auto want = unit_op(op, sc::weekday{w}, sc::days{k}, [](auto const& x) { return f_wd(x); });
                     c.check(c.subject, got, want, cls, kase);
-                    long long const s = (long long)(w == 7 ? 0 : w) + eff_delta(op, k);
+                    long long const s = (long long)(w % 7) + eff_delta(op, k);
                     if (s < 0 || s > 6) { r.nontrivial(mc::hash_mix(mc::hash_mix(w, std::uint64_t(k)), op)); }
                     r.outcome(got.hash());
                 }
@@ -214,7 +219,7 @@ void job_weekday(mc::Reporter& r)
             }
         }
     });
-    r.sample(cat("weekday 0..7 x days{", deltas.size(), " deltas incl. +-(2^31-1)} x 9 ops; 64 differences"));
+    r.sample(cat("weekday 0..255 x days{", deltas.size(), " deltas incl. +-(2^31-1)} x 9 ops; 64 differences"));
     r.count("evaluations", c.evals);
 }
 
@@ -340,6 +345,55 @@ void job_year(mc::Reporter& r)
     r.count("evaluations", c.evals);
 }
 
+/// round 2: year arithmetic at EVERY year (the lattice job above covers 181 years x 29 deltas)
+void job_year_all(mc::Reporter& r, int y0, int y1 /*exclusive*/)
+{
+    Ctx c(r);
+    std::vector<long long> const ds{0, 1, -1, 2, -2, 3, -3, 4, -4, 100, -100, 400, -400, 255, -255, 256, -256, 32767, -32767, 32768, -32768, 65534, -65534};
+    int y       = 0;
+    long long k = 0;
+    int op      = 0;
+    std::string subjects[9];
+    for (int i = 0; i < 9; ++i) { subjects[i] = cat("year::", kUnitOps[i]); }
+    auto cls = [&] {
+        long long const res = (long long)y + eff_delta(op, k);
+        return std::string((y < 0) != (res < 0) ? "crosses_zero" : (y < 0 ? "year_neg" : "general"));
+    };
+    auto kase = [&] { return cat("year{", y, "} ", kUnitOps[op], " years{", (op >= 5 ? 1 : k), "}"); };
+    std::uint64_t nontrivial = 0;
+    for (int yb = y0; yb < y1; yb += 512) {
+        mc::Trap const t = mc::guarded([&] {
+            for (y = yb; y < yb + 512 && y < y1; ++y) {
+                for (long long kk : ds) {
+                    k = kk;
+                    for (op = 0; op < 9; ++op) {
+                        if (op >= 5 && k != 0) { continue; }
+                        long long const res = (long long)y + eff_delta(op, k);
+                        if (res < -32767 || res > 32767) { continue; } // outside [min(), max()]: the value held is unspecified
+                        c.subject = subjects[op].c_str();
+                        auto got  = unit_op(op, ec::year{y}, ec::years{int(k)}, [](auto const& x) { return f_year(x); });
+                        auto want = unit_op(op, sc::year{y}, sc::years{k}, [](auto const& x) { return f_year(x); });
+                        c.check(c.subject, got, want, cls, kase);
+                        if (k != 0 || op >= 5) { ++nontrivial; } // distinct by construction of the loops
+                    }
+                }
+                c.subject = "year::operator+()/operator-()";
+                c.check(
+                    c.subject, join(f_year(+ec::year{y}), f_year(-ec::year{y})), join(f_year(+sc::year{y}), f_year(-sc::year{y})), [&] { return std::string(y < 0 ? "year_neg" : "general"); },
+                    [&] { return cat("+year{", y, "}, -year{", y, "}"); });
+            }
+        });
+        if (t != mc::Trap::none) { c.trapped(t, cls(), kase()); }
+        if (r.deadline_passed()) {
+            r.not_exhaustive("deadline");
+            break;
+        }
+    }
+    r.sample(cat("every year in [", y0, ",", y1, ") x ", ds.size(), " deltas x 9 ops with results inside [-32767,32767]; unary + and -"));
+    r.count("evaluations", c.evals);
+    r.count("distinct_nontrivial", nontrivial);
+}
+
 // ---------------------------------------------------------------------------------------------
 // composite types
 // ---------------------------------------------------------------------------------------------
@@ -394,9 +448,9 @@ struct CompSpace {
 CompSpace comp_space(bool thorough)
 {
     CompSpace s;
-    s.years = {1970, 1969, 1971, 2000, 0, 1, -1, 32762, -32762};
+    s.years = {1970, 1969, 1971, 2000, 0, 1, -1, 32762, -32762, 32767, -32767, 32766, -32766}; // round 2: the limits themselves in both tiers
     if (thorough) {
-        for (int y : {1999, 2001, 2023, 2024, 1900, 1600, -400, -401, 32767, -32767, 32766, -32766, 100, -100}) { s.years.push_back(y); }
+        for (int y : {1999, 2001, 2023, 2024, 1900, 1600, -400, -401, 100, -100, 32765, -32765, 16384, -16384}) { s.years.push_back(y); }
     }
     int const span = thorough ? 500 : 40;
     for (int k = 0; k <= span; ++k) {
@@ -520,7 +574,11 @@ void job_ymd(mc::Reporter& r)
 {
     Ctx c(r);
     auto const sp = comp_space(r.thorough());
-    for (unsigned d : {1U, 28U, 29U, 30U, 31U, 15U}) {
+    std::vector<unsigned> ds{1U, 28U, 29U, 30U, 31U, 15U};
+    if (r.thorough()) {
+        for (unsigned d : {0U, 32U, 255U}) { ds.push_back(d); } // round 2: the day is carried unchanged whatever it holds
+    }
+    for (unsigned d : ds) {
         comp_sweep<true>(
             r, c, "year_month_day", sp, cat(",", d),
             [d](auto L, int y, unsigned m) { return typename decltype(L)::year_month_day{typename decltype(L)::year{y}, typename decltype(L)::month{m}, typename decltype(L)::day{d}}; },
@@ -545,7 +603,7 @@ void job_ymd(mc::Reporter& r)
             }
         }
     }
-    r.sample(cat("year_month_day: days {1,28,29,30,31,15} x ", sp.years.size(), " years x 12 months x ", sp.dm.size(), " month deltas / ", sp.dy.size(), " year deltas x 10 ops"));
+    r.sample(cat("year_month_day: days {1,28,29,30,31,15", (r.thorough() ? ",0,32,255" : ""), "} x ", sp.years.size(), " years x 12 months x ", sp.dm.size(), " month deltas / ", sp.dy.size(), " year deltas x 10 ops"));
     r.count("evaluations", c.evals);
 }
 
@@ -568,8 +626,11 @@ void job_ymw(mc::Reporter& r)
 {
     Ctx c(r);
     auto const sp = comp_space(r.thorough());
-    for (unsigned wd : {0U, 3U, 6U}) {
-        for (unsigned idx : {1U, 5U}) {
+    for (unsigned wd = 0; wd <= 6; ++wd) {
+        for (unsigned idx = 0; idx <= 5; ++idx) {
+            // quick: weekday {0,3,6} x index {1,5}; thorough (round 2): every weekday x {1,5} and Wednesday x every index 0..5
+            bool const in_quick = (wd == 0 || wd == 3 || wd == 6) && (idx == 1 || idx == 5);
+            if (!in_quick && !(r.thorough() && (idx == 1 || idx == 5 || wd == 3))) { continue; }
             // compound assignment of year_month_weekday is declared but not defined in tetl (API gap)
             comp_sweep<false>(
                 r, c, "year_month_weekday", sp, cat(",weekday{", wd, "}[", idx, "]"),
@@ -580,7 +641,7 @@ void job_ymw(mc::Reporter& r)
                 [](auto const& x) { return f_ymw(x); }, false);
         }
     }
-    r.sample(cat("year_month_weekday: weekday {0,3,6} x index {1,5} x ", sp.years.size(), " years x 12 months x ", sp.dm.size(), " month deltas / ", sp.dy.size(), " year deltas x 6 ops"));
+    r.sample(cat("year_month_weekday: ", (r.thorough() ? "weekday 0..6 x index {1,5} + Wednesday x index 0..5" : "weekday {0,3,6} x index {1,5}"), " x ", sp.years.size(), " years x 12 months x ", sp.dm.size(), " month deltas / ", sp.dy.size(), " year deltas x 6 ops"));
     r.count("evaluations", c.evals);
 }
 
@@ -695,6 +756,11 @@ int main(int argc, char** argv)
     m.job("arith/year_month_day_last", both, job_ymdl);
     m.job("arith/year_month_weekday", both, job_ymw);
     m.job("syntax", both, job_syntax);
+    for (int k = 0; k < 4; ++k) {
+        int const y0 = -32767 + k * 16384;
+        int const y1 = std::min(y0 + 16384, 32768);
+        m.job(cat("arith/year/allyears/", y0, "..", y1 - 1), both, [=](mc::Reporter& r) { job_year_all(r, y0, y1); });
+    }
     for (int k = 0; k < 8; ++k) {
         int const y0 = -32767 + k * 8192;
         int const y1 = std::min(y0 + 8192, 32768);
